@@ -27,6 +27,8 @@ type Solver struct {
 	Errors    int
 	Time      time.Duration
 	TimeoutMS int
+	Dead      bool
+	Restarts  int
 }
 
 type scope struct {
@@ -40,7 +42,7 @@ func NewSolver(kind string, ctx *Ctx, timeoutMS int, logPath string) (*Solver, e
 	case "z3", "z3-new":
 		cmd = exec.Command(kind, "-in", "-smt2")
 	case "cvc5":
-		cmd = exec.Command("cvc5", "--incremental", "--lang=smt2", "--produce-models", fmt.Sprintf("--tlimit-per=%d", timeoutMS), "--fp-exp")
+		cmd = exec.Command("cvc5", "--incremental", "--lang=smt2", "--produce-models", fmt.Sprintf("--tlimit-per=%d", timeoutMS), "--fp-exp", "--bv-sat-solver=minisat")
 	default:
 		return nil, fmt.Errorf("unknown solver %s", kind)
 	}
@@ -199,6 +201,11 @@ const (
 func (r SatResult) String() string { return [...]string{"unsat", "sat", "unknown"}[r] }
 
 func (s *Solver) Check() SatResult {
+	if s.Dead {
+		s.Queries++
+		s.Unknown++
+		return UnknownRes
+	}
 	t0 := time.Now()
 	s.send("(check-sat)")
 	var l string
@@ -207,10 +214,18 @@ func (s *Solver) Check() SatResult {
 		if l == "" {
 			continue
 		}
+		if strings.Contains(l, "fatal error") {
+			s.Dead = true
+			s.Errors++
+			s.Queries++
+			s.Unknown++
+			return UnknownRes
+		}
 		if strings.HasPrefix(l, "(error") {
 			// an error about an earlier command: treat the whole check as unknown, but keep reading to the verdict
 			s.Errors++
-			if strings.Contains(l, "solver died") {
+			if strings.Contains(l, "solver died") || strings.Contains(l, "fatal error") {
+				s.Dead = true
 				s.Queries++
 				s.Unknown++
 				return UnknownRes
